@@ -539,6 +539,11 @@ func (c *FuncCtx) sliceFacts(st *State, s SliceV) {
 // entryDerived: the term names storage reachable from the function's inputs (no fresh symbol,
 // which would come from a havoc, a callee result or an allocation).
 func entryDerived(t *Term) bool {
+	// row j of a slice of slices reachable from the inputs is input storage whatever the index j is
+	// (a loop variable, a quantified row index): only the base decides
+	if t.Op == "app" && t.Name == "row.addr" && len(t.Args) == 2 {
+		return entryDerived(t.Args[0])
+	}
 	ok := true
 	t.walk(func(x *Term) {
 		if (x.Op == "var" || x.Op == "app") && strings.Contains(x.Name, "!") {
